@@ -92,6 +92,11 @@ CHECKS = {
         "cast flag, int, float, bool, NaN/Inf and skip-tag options: no cast without the flag, never NaN/Inf unless asked, the chosen kind is one the text denotes. Every (text, combination) is replayed in element, attribute and text-key position "
         "through NewMapXml, NewMapXmlSeq and the internal cast (hook), and Map.Json() must succeed whenever CastNanInf is off.",
    ref="DESIGN.md section 4, C14", technique="TLA+ decision-chain spec over strconv-generated classification, exhaustive catalogue x options in TLC, spec->code replay"),
+ "C16": dict(
+   text="Encoding is specified as an operator of Map content (EncodeRoot / JsonOf of the encoder specifications, ascending key order checked by TLC); the state of MC_C16 is the content plus a construction history (insert / overwrite / delete), "
+        "all histories of bounded length are enumerated and each is replayed into real Go maps of four capacities; the resulting Map is encoded three times through ~30 entry points (Xml, XmlWriter, XmlIndent[Writer], AnyXml, Json[Indent][Writer][Raw], "
+        "Maps.*String / *File forms, MapSeq.Xml[Writer][Indent]) and every output must equal the specification's bytes (compact), be token-equivalent (indented), equal the byte-returning form (Writer/Raw), or be the concatenation (Maps); failing sinks must surface their error.",
+   ref="DESIGN.md section 4, C16", technique="TLA+ history enumeration (TLC) + content-function encoder spec, replay through all encoder variants with byte comparison"),
 }
 NOT_YET = "machinery for this property is not built yet in this round (design in DESIGN.md section 4); no claim is made"
 
